@@ -129,12 +129,19 @@ fn main() { try { println(walk(50)); } catch e { println("caught"); } }`},
 fn fib(n: int) -> int { if n < 2 { n } else { fib(n - 1) + fib(n - 2) } }
 fn w(id: int) { println(fib(70)); }
 fn main() { for i in 0..N { spawn w(i); } }`},
-	{name: "spawn-tree", endless: true, vmOnly: true, check: noOutput, src: `
+	{name: "spawn-tree", endless: true, vmOnly: true, generated: true, check: noOutput, src: `
 fn node(d: int) {
     if d > 0 { spawn node(d - 1); spawn node(d - 1); }
     loop { time.sleep(0.01); }
 }
-fn main() { node(N + 3); }`},
+fn main() { node(N + 4); }`},
+	{name: "spawn-tree-busy", endless: true, vmOnly: true, generated: true, check: noOutput, src: `
+let g = 0;
+fn node(d: int) {
+    if d > 0 { spawn node(d - 1); spawn node(d - 1); spawn node(d - 1); }
+    loop { g = g + 1; }
+}
+fn main() { node(N + 2); }`},
 	{name: "spawn-late", endless: true, vmOnly: true, check: perWorker, src: `
 fn w(id: int) { let i = 0; loop { println("w", id, i); i = i + 1; time.sleep(0.01); } }
 fn main() { for i in 0..N { time.sleep(0.013); spawn w(i); } loop { let z = 0; } }`},
